@@ -206,9 +206,30 @@ def rule3_recycle(ctx, fl):
             else:
                 ok = is_load_of(r, p.args[1], TH + 'stack')
             ctx.ob('C13.3', rel + ': pushes the resource itself', ok, 'the pointer pushed is the record / the stack', loc=p.loc)
+        rels = pushes + call_sites(r, 'myth_flfree')
+        rets = [i for i in r.order if i.op == 'ret']
+        if rel == DESC_FREE:
+            reach = r.reachable_from(r.entry_inst(), blocked=rels, include_start=True)
+            ctx.ob('C13.3', rel + ': every call releases', not [x for x in rets if x in reach],
+                   'no path through the release function skips the push', loc=r.loc)
+        else:
+            sl = [i for i in r.order if i.op == 'load' and r.field(i) == TH + 'stack']
+            tests = [t for l in sl for t in null_tests(r, l.id) if t[1] != t[2]]
+            ctx.ob('C13.3', rel + ': only a missing stack is skipped', len(tests) >= 1 or not [
+                x for x in rets if x in r.reachable_from(r.entry_inst(), blocked=rels, include_start=True)],
+                   'the release is unconditional or conditional on th->stack only', loc=r.loc)
+            for br, nn, nl in tests:
+                reach = r.reachable_from(lib.first_inst(r, nn), blocked=rels, include_start=True)
+                ctx.ob('C13.3', rel + ': a present stack is always released', not [x for x in rets if x in reach],
+                       'from the non-null edge of the th->stack test every path passes the free-list push or myth_flfree '
+                       '(otherwise every reaped thread leaks its stack and create/reap cycles grow without bound)', loc=br.loc)
+            for p in rels:
+                ctx.ob('C13.3', rel + ': release guarded by stack != NULL', not tests or any(
+                    r.edge_dominates(br.block.id, nn, p) for br, nn, nl in tests),
+                       'nothing is pushed / freed for a thread that has no stack', loc=p.loc)
         others = [p for p in call_sites(r, 'myth_freelist_push') if p not in pushes]
         ctx.ob('C13.3', rel + ': no other list', not others, 'the release does not push to any other list', loc=r.loc)
-    ctx.floor('C13.3', 12)
+    ctx.floor('C13.3', 16)
 
 
 def rule4_timed(ctx, v):
@@ -290,6 +311,8 @@ def run(ctx):
 SCHED = 'src/myth_sched_func.h'
 WRAP = 'src/myth_wrap_pthread.c'
 MUTANTS = [
+    {'name': 'stack release skips every thread that has a stack (sweep M0168)', 'expect': 'C13.3',
+     'edits': [(SCHED, "  if (th->stack) {\n    //Add to a freelist", "  if (!th->stack) {\n    //Add to a freelist")]},
     {'name': 'tryjoin releases the record to an unset env (sweep M0603)', 'expect': 'C13.1',
      'edits': [(SCHED, "  myth_running_env_t env;\n  env = myth_get_current_env();\n  //Obtain lock and check again", "  myth_running_env_t env;\n  //Obtain lock and check again")]},
     {'name': 'tryjoin frees the record on the busy path', 'expect': 'C13.1',
